@@ -186,6 +186,9 @@ def _metabolite_from_dict(metabolite: Dict) -> Metabolite:
     """
     new_metabolite = Metabolite()
     for k, v in metabolite.items():
+        if k == "compartment" and v == "":
+            # a metabolite without compartment is saved with an empty string
+            v = None
         setattr(new_metabolite, k, v)
     return new_metabolite
 
